@@ -183,6 +183,8 @@ def ground_truth(h):
             if attr in vars(c):
                 if c in src:
                     gt['class_def'][attr] = src[c]
+                elif c is not object:
+                    gt.setdefault('builtin_first', {})[attr] = c.__name__ + '.' + attr
                 break
         gt['inst_sites'][attr] = [h.sites[(i, attr)][1] for i in mro if (i, attr) in h.sites and h.sites[(i, attr)][0] == 'inst']
     for i in mro:
@@ -191,6 +193,14 @@ def ground_truth(h):
         i = gt['class_def'].get(attr)
         return None if i is None else h.classes[i][1 if attr == h.ax else 2]
     gt['data_descriptor'] = {attr: first_kind(attr) == 'property-setter' for attr in (h.ax, 'y')}
+    # several classes of the MRO assign the attribute in their __init__ and nothing else assigns it: Python runs the __init__ of
+    # the first class of the MRO that has one (the generated ones never call super()), so that assignment is THE definition
+    gt['inst_exact'] = {}
+    first_init = next((i for i in mro if '__init__' in vars(ns['C%d' % i])), None)
+    for attr in (h.ax, 'y'):
+        kinds = {h.classes[i][1 if attr == h.ax else 2] for i in mro if (i, attr) in h.sites and h.sites[(i, attr)][0] == 'inst'}
+        if kinds == {'init-assign'} and first_init is not None and (first_init, attr) in h.sites and h.sites[(first_init, attr)][0] == 'inst':
+            gt['inst_exact'][attr] = h.sites[(first_init, attr)][1]
     gt['has_property'] = {attr: any(h.classes[i][1 if attr == h.ax else 2] == 'property' for i in mro) for attr in (h.ax, 'y')}
     return gt
 
@@ -279,6 +289,24 @@ def check_hier(h, root, part, imports=False):
                 if gt['data_descriptor'][attr]:
                     exp_inst = []          # the property of the class is what the lookup finds, whatever was "assigned" through it
                 if not exp_inst and exp_cls is None:
+                    # Python finds the attribute on a builtin class standing in front of every source class that defines it
+                    # (class C2(C1, C0), C1(dict): dict.__repr__ before C0.__repr__): supp must not land on the shadowed source definition
+                    shadowed = [h.sites[(i, attr)][1] for i in gt['mro'] if (i, attr) in h.sites and h.sites[(i, attr)][0] == 'class']
+                    if shadowed and gt.get('builtin_first', {}).get(attr):
+                        try:
+                            with watchdog(30):
+                                locs = location(P, text, (ln, col + 1), tfn)
+                        except Timeout:
+                            raise
+                        except Exception:
+                            part.count('location_crashes')
+                            continue
+                        part.count('definition_queries')
+                        got = flat_first(locs, fn)
+                        if got and got[0] in shadowed:
+                            add('definition:%s:expected-builtin-definition:got-%s' % (rname.split('-via-')[0] if 'via' in rname else rname, describe(h, got)),
+                                'location on `%s.%s` (%s) gives %s; Python finds %s first, the source definition is shadowed (mro %s)' % (
+                                    rexpr, attr, rname, got, gt['builtin_first'][attr], gt['mro']))
                     continue
                 try:
                     with watchdog(30):
@@ -290,6 +318,11 @@ def check_hier(h, root, part, imports=False):
                     continue
                 part.count('definition_queries')
                 got = flat_first(locs, fn)
+                exact = gt['inst_exact'].get(attr) if exp_inst else None
+                if exact is not None and len(exp_inst) > 1 and got and set(got) <= set(exp_inst) and got[:1] != [exact]:
+                    add('definition:%s:expected-init-of-first-mro-class:got-%s' % (rname.split('-via-')[0] if 'via' in rname else rname, describe(h, got)),
+                        'location on `%s.%s` (%s) gives %s first; only the __init__ of the first class of the MRO runs, which assigns it at %s (mro %s)' % (
+                            rexpr, attr, rname, got, exact, gt['mro']))
                 if exp_inst:
                     if not got or not set(got) <= set(exp_inst):
                         add('definition:%s:expected-instance-assignment:got-%s' % (rname.split('-via-')[0] if 'via' in rname else rname, describe(h, got)),
@@ -395,6 +428,11 @@ def enum(tier):
             for classes in hierarchies(3, ('none', 'method') if tier == 'quick' else ('none', 'method', 'classvar', 'method-assign'), ('none',), 2, (blt,)):
                 if any(blt in c[0] for c in classes) and any(c[1] != 'none' for c in classes):
                     out.append((classes, SHADOWING[blt]))
+        # a dunder that the builtin base defines ITSELF (dict.__repr__ is not object.__repr__): a source class right of the dict
+        # subclass must not win, a source class left of it must
+        for classes in hierarchies(3, ('none', 'method'), ('none',), 2, ('dict',)):
+            if any('dict' in c[0] for c in classes) and any(c[1] != 'none' for c in classes):
+                out.append((classes, '__repr__'))
         _ENUM[tier] = out
     return _ENUM[tier]
 
